@@ -283,10 +283,26 @@ func runC17(c *runCtx) {
 	fixers := c17Fixers()
 	featNames := hostileFeatureNames()
 	n := c.n(1400, 40000)
-	for i := 0; i < n; i++ {
-		hostile := i%2 == 1
+	// texts with one very long line (a dump-style list on one line: 5 000 … 300 000 bytes, around every buffer size a
+	// line reader might use), LF and CRLF, with the defects every fixer looks for before, on and after it
+	var longTexts []string
+	for _, size := range []int{5000, 65000, 66000, 70000, 140000, 300000} {
+		var lb strings.Builder
+		lb.WriteString("  INSERT INTO t (a, b) VALUES (0,  'x')")
+		for k := 1; lb.Len() < size; k++ {
+			fmt.Fprintf(&lb, ", (%d, 'v%d')", k, k)
+		}
+		for _, nl := range []string{"\n", "\r\n"} {
+			longTexts = append(longTexts, "select a  from t   "+nl+nl+nl+nl+lb.String()+"  \t"+nl+"\tSELECT b   FROM u WHERE c = 1 "+nl+"select d from v"+nl)
+		}
+	}
+	for i := 0; i < n+len(longTexts); i++ {
+		hostile := i%2 == 1 && i < n
 		text := g.tame()
 		feature := "tame"
+		if i >= n {
+			text, feature = longTexts[i-n], "long-line"
+		}
 		if hostile {
 			feature = featNames[(i/2)%len(featNames)]
 			text = g.hostile(feature)
@@ -307,7 +323,7 @@ func runC17(c *runCtx) {
 			res.count(fx.id+fx.param+"|"+text, true)
 			wit := map[string]any{"rule": fx.id, "param": fx.param, "text": text}
 			// correspondence with the Lean model
-			if drv != nil && utf8.ValidString(text) {
+			if drv != nil && utf8.ValidString(text) && len(text) <= 20000 {
 				ans, derr := drv.Ask("lintfix", fx.id+" "+fx.param+" "+hex.EncodeToString([]byte(text)))
 				if derr == nil {
 					res.CorrCases++
